@@ -20,8 +20,15 @@ fn run_repl() {
         print!(">>> ");
         io::stdout().flush().unwrap();
         // stop at the end of the input (e.g. ctrl+d)
-        if io::stdin().read_line(&mut buffer).unwrap() == 0 {
-            break;
+        match io::stdin().read_line(&mut buffer) {
+            Ok(0) => break,
+            Ok(_) => (),
+            // a line that is not text (invalid UTF-8) has been consumed: report it and go on
+            Err(e) if e.kind() == io::ErrorKind::InvalidData => {
+                eprintln!("kan de invoer niet lezen: {e}");
+                continue;
+            }
+            Err(_) => break,
         }
 
         let result = parse(&buffer)
@@ -39,7 +46,14 @@ fn run_repl() {
 }
 
 fn run_file(f: &Path) {
-    let program = fs::read_to_string(f).unwrap();
+    // a file that is missing, unreadable or not text (invalid UTF-8) is reported, not a panic
+    let program = match fs::read_to_string(f) {
+        Ok(program) => program,
+        Err(e) => {
+            eprintln!("kan {} niet lezen: {e}", f.display());
+            return;
+        }
+    };
 
     match eval(&program) {
         Ok(obj) => println!("{obj}"),
